@@ -216,6 +216,68 @@ def scenarios_for(prop, tier, rng):
     return small, big
 
 
+CACHE_INV = ["C04_PublishedClean", "C04_EarlyOnce", "C04_OneEarlyRef", "C04_CleanFailure", "C04_MarkedWhileOpen"]
+
+
+def cache_phase(run, tier, workdir, binary):
+    """C04, replay direction: TLC enumerates complete registry call sequences of Cache.tla (and simulates
+    longer ones); each is replayed into the real registry; what the registry actually did is validated."""
+    import re
+    cd = os.path.join(workdir, "cache")
+    os.makedirs(cd)
+    vlib.stage_specs(cd, ["Cache.tla", "TraceCache.tla"])
+    names, maxops = (2, 5) if tier == "quick" else (2, 6)
+    consts = dict(Names="{%s}" % ", ".join(str(i) for i in range(1, names + 1)), MaxOps=maxops, CleanupOnError="TRUE")
+    vlib.write_cfg(os.path.join(cd, "exp.cfg"), constants=consts, spec="Spec", invariants=CACHE_INV + ["Export"],
+                   properties=["C04_PublishedStable"])
+    r = vlib.run_tlc(cd, "Cache", "exp.cfg", workers=4, timeout=1800, jvm=vlib.JVM_BIG)
+    run.add_model_run("Cache names=%d all call sequences of length %d" % (names, maxops), r)
+    if not r.ok:
+        raise vlib.Infra("Cache.tla: %s %s" % (r.kind, r.violated))
+    hists = [json.loads(json.loads('"' + m + '"')) for m in re.findall(r'<<"HIST", "(.*)">>', r.out)]
+    # longer random call sequences by simulation
+    sim_ops = 12 if tier == "quick" else 16
+    consts2 = dict(consts, MaxOps=sim_ops)
+    vlib.write_cfg(os.path.join(cd, "sim.cfg"), constants=consts2, spec="Spec", invariants=CACHE_INV + ["Export"])
+    num = 3000 if tier == "quick" else 30000
+    r2 = vlib.run_tlc(cd, "Cache", "sim.cfg", workers=1, timeout=900,
+                      simulate="num=%d" % num, extra=["-depth", str(sim_ops + 1), "-seed", str(run.seed)])
+    hists2 = [json.loads(json.loads('"' + m + '"')) for m in re.findall(r'<<"HIST", "(.*)">>', r2.out)]
+    run.cov["model_runs"].append(dict(name="Cache simulate depth %d" % sim_ops, histories=len(hists2), ok=True))
+    allh = [h for h in hists + hists2 if any(o["op"] == "createBegin" for o in h)]
+    vlib.write_ndjson(os.path.join(cd, "h.ndjson"), allh)
+    p = vlib.run_harness(binary, ["cache", "-in", "h.ndjson", "-out", "ct.ndjson", "-names", str(names)], cwd=cd)
+    if p.returncode != 0:
+        raise vlib.Infra("cache replay failed: " + p.stderr[-1000:])
+    groups = el.split_trace(os.path.join(cd, "ct.ndjson"), marker='"op":"hist"')
+    tc = dict(consts, MaxOps=1000)
+    stm, fm = el.validate_groups(cd, groups, "TraceCache", tc, CACHE_INV, ["M_NoHalfBuilt", "M_PublishedStable"], "cmon",
+                                 spec="MonitorSpec")
+    stc, fc = el.validate_groups(cd, groups, "TraceCache", tc, CACHE_INV, [], "cconf")
+    run.cov["states"] += stm["states"] + stc["states"]
+    run.cov["transitions"] += stm["generated"] + stc["generated"]
+    run.cov["traces_validated_against_impl"] += len(groups)
+    run.cov["cache_histories_replayed"] = len(groups)
+    drift = 0
+    for layer, fails in (("monitor", fm), ("conformance", fc)):
+        for f in fails:
+            g = groups[f["group"]]
+            ops = [json.loads(x) for x in g[1:]]
+            if f["kind"] == "postcondition":
+                if layer == "monitor":
+                    raise vlib.Infra("cache monitor could not consume a history: " + f["tlc"][:400])
+                drift += 1
+                continue
+            what = "cache %s: %s %s violated at call %d of a replayed history" % (layer, f["kind"], f["name"], f["line"] - 1)
+            run.violation(what, dict(kind="cache", history=[{k: v for k, v in o.items() if k != "st"} for o in ops],
+                                     operator=f["name"], call_index=f["line"] - 1, tlc=f["tlc"][:2000]))
+    if allh:
+        run.sample(dict(cache_history=allh[len(allh) // 2]))
+    for h in allh:
+        run.count_case(h, True)
+    return drift
+
+
 def run_check(prop, tier, replay=None):
     run = vlib.Run(prop, tier, "model_checking")
     rng = random.Random(run.seed * 7919 + hash(prop) % 1000)
@@ -241,6 +303,15 @@ def run_check(prop, tier, replay=None):
             small, big = ([], [sc]) if sc.get("sparse") else ([sc], [])
         else:
             small, big = scenarios_for(prop, tier, rng)
+        cache_th, cache_res = None, []
+        if prop == "C04" and replay is None:
+            def cache_job():
+                try:
+                    cache_res.append(cache_phase(run, tier, workdir, binary))
+                except Exception as e:
+                    cache_res.append(e)
+            cache_th = threading.Thread(target=cache_job)
+            cache_th.start()
         bd = os.path.join(workdir, "b")
         os.makedirs(bd)
         vlib.stage_specs(bd, ["Container.tla", "TraceContainer.tla", "MonitorContainer.tla"])
@@ -296,6 +367,11 @@ def run_check(prop, tier, replay=None):
             raise errs[0]
 
         drift = 0
+        if cache_th:
+            cache_th.join()
+            if cache_res and isinstance(cache_res[0], Exception):
+                raise cache_res[0]
+            drift += cache_res[0]
         for out in results:
             groups = out["groups"]
             st, fails = out["mon"]
